@@ -154,6 +154,9 @@ impl Interp {
             if (mv - thr).abs() < 1e-6 * (1.0 + thr.abs()) {
                 return Err(HOutcome::Discard("branch value within 1e-6 of the threshold".into()));
             }
+            if *elem >= self.ex.get(*cond).values().len() {
+                return Err(HOutcome::Discard("the forward result does not have the shape the case was typed with".into()));
+            }
             let ev = self.ex.get(*cond).values()[*elem] as f64;
             if (mv > *thr) != (ev > *thr) {
                 return Err(HOutcome::Discard("corgi and the reference take different branches (forward values differ)".into()));
